@@ -77,7 +77,7 @@ def parse_shape(s):
         return ('S', ())
     if s == 'B':
         return ('B', ())
-    m = re.fullmatch(r'V(\d)', s)
+    m = re.fullmatch(r'V(\d+)', s)
     if m:
         return ('S', (int(m.group(1)),))
     m = re.fullmatch(r'M(\d)(\d)', s)
@@ -207,6 +207,24 @@ class Translator:
         mod = Module(spec['name'], spec['file'], spec.get('aliases', {}))
         self.modules[spec['name']] = mod
         self.src = src
+        # module-level integer and slice(a,b) constants (usable as literal indices; C08)
+        mod.intconsts, mod.sliceconsts = {}, {}
+        for st in tree.body:
+            if isinstance(st, ast.Assign) and len(st.targets) == 1 and isinstance(st.targets[0], ast.Name):
+                tv = st.value
+                if isinstance(tv, ast.Constant) and isinstance(tv.value, int) and not isinstance(tv.value, bool):
+                    mod.intconsts[st.targets[0].id] = tv.value
+                elif isinstance(tv, ast.UnaryOp) and isinstance(tv.op, ast.USub) and isinstance(tv.operand, ast.Constant) \
+                        and isinstance(tv.operand.value, int):
+                    mod.intconsts[st.targets[0].id] = -tv.operand.value
+                elif isinstance(tv, ast.Name) and tv.id in mod.sliceconsts:
+                    mod.sliceconsts[st.targets[0].id] = mod.sliceconsts[tv.id]
+                elif isinstance(tv, ast.Call) and isinstance(tv.func, ast.Name) and tv.func.id == 'slice' and len(tv.args) == 2:
+                    self.mod = mod
+                    self.env = {}
+                    lo, hi = self.const_int(tv.args[0]), self.const_int(tv.args[1])
+                    if lo is not None and hi is not None:
+                        mod.sliceconsts[st.targets[0].id] = (lo, hi)
         out = []
         for cname in spec.get('consts', []):
             node = None
@@ -239,7 +257,7 @@ class Translator:
         for p in parts:
             node = None
             for st in body:
-                if isinstance(st, (ast.FunctionDef,)) and st.name == p:
+                if isinstance(st, (ast.FunctionDef, ast.ClassDef)) and st.name == p:   # ClassDef: methods / nested defs of methods (C04)
                     node = st
             if node is None:
                 raise TranslateError('def %s not found' % qual)
@@ -261,7 +279,28 @@ class Translator:
             raise TranslateError('%s: expected %d params in spec, source has %d (%s)' %
                                  (qual, len(pspecs), len(pynames), pynames))
         coq_params = []
+        # function-valued closure variables (black-box oracles): opts['oracles'] = [(name, n_scalar_args, n_scalar_results)]
+        # become leading parameters of type T -> .. -> T * .. * T; calls to them are emitted verbatim
+        oracle_txt = []
+        # opts['opaque'] = [(dotted python name, coq parameter name, [input shape specs], output shape spec)]: un-modelled
+        # tensor functions (spectral functions) become leading function parameters (C08/C11)
+        self.opaque = {}
+        opaque_names = []
+        for full, on, ins, outs in opts.get('opaque', []):
+            self.opaque[full] = (san(on), ins, outs)
+            opaque_names.append(san(on))
+            ni = sum(len(names_for('x', parse_shape(ps)[1])) for ps in ins)
+            no = len(names_for('x', parse_shape(outs)[1]))
+            oracle_txt.append('(%s : %s)' % (san(on), ' -> '.join(['T'] * ni + ['(' + ' * '.join(['T'] * no) + ')'])))
+        # opts['static'] = {param name: int}: python-int parameters fixed at translation time (index arithmetic)
+        static = opts.get('static', {})
+        for on, ni, no in opts.get('oracles', []):
+            self.env[on] = ('ORACLE', san(on), ni, no)
+            oracle_txt.append('(%s : %s)' % (san(on), ' -> '.join(['T'] * ni + ['(' + ' * '.join(['T'] * no) + ')'])))
         for pn, ps in allp:
+            if pn in static:
+                self.env[pn] = ('STATIC', int(static[pn]))
+                continue
             v, names = self.bind_param(pn, ps)
             self.env[pn] = v
             coq_params += names
@@ -277,11 +316,12 @@ class Translator:
             raise TranslateError('%s: no return' % qual)
         flat, struct = self.flatten_ret(ret)
         cname = opts.get('coq_name') or self.coq_name(mod.name, name)
-        info = FuncInfo(mod, cname, allp, struct)
+        info = FuncInfo(mod, cname, [(pn, ps) for pn, ps in allp if pn not in static], struct)
+        info.opaque = opaque_names
         mod.funcs[name] = info
         rtypes = ' * '.join('bool' if k == 'B' else 'T' for k, _ in flat)
         rterm = '(' + ', '.join(t for _, t in flat) + ')' if len(flat) > 1 else flat[0][1]
-        ptxt = ' '.join('(%s : %s)' % (n, 'bool' if k == 'B' else 'T') for n, k in coq_params)
+        ptxt = ' '.join(oracle_txt + ['(%s : %s)' % (n, 'bool' if k == 'B' else 'T') for n, k in coq_params])
         body_txt = ''.join('  ' + l + '\n' for l in lines)
         return 'Definition %s %s : %s :=\n%s  %s.' % (cname, ptxt, rtypes, body_txt, rterm)
 
@@ -371,7 +411,7 @@ class Translator:
             elif isinstance(st, ast.FunctionDef):
                 # nested def: remember for inlining at call sites (lambda-like)
                 self.env[st.name] = ('DEF', st)
-            elif isinstance(st, ast.Pass):
+            elif isinstance(st, (ast.Pass, ast.Delete)):
                 continue
             else:
                 raise TranslateError('%s: unsupported statement %s at line %d' % (qual, type(st).__name__, st.lineno))
@@ -404,6 +444,9 @@ class Translator:
             return TupleVal([self.bind_local('%s_%d' % (name, i), it, lines) for i, it in enumerate(v.items)])
         if name == '_':
             return v
+        # locals of an inlined nested def get a unique suffix: the inlined body may be expanded several times in one
+        # expression, and its result expressions must not be captured by a later expansion's bindings
+        name = name + getattr(self, 'local_suffix', '')
         ns = names_for(name, v.shape)
         for n, t in zip(ns, v.flat()):
             if n != t:
@@ -429,7 +472,10 @@ class Translator:
 
     def e_Name(self, e):
         if e.id in self.env:
-            return self.env[e.id]
+            ev = self.env[e.id]
+            if isinstance(ev, tuple) and ev and ev[0] == 'STATIC':
+                return scalar(lit(str(ev[1])))
+            return ev
         if e.id in self.mod.consts:
             return scalar(self.mod.consts[e.id])
         if e.id in ('True', 'False'):
@@ -503,6 +549,13 @@ class Translator:
             if isinstance(node, ast.Constant) and isinstance(node.value, (int, float)) and not isinstance(node.value, bool):
                 seg = ast.get_source_segment(self.src, node) or repr(node.value)
                 return Fraction(Decimal(seg))
+            if isinstance(node, ast.Name):
+                ev = self.env.get(node.id)
+                if isinstance(ev, tuple) and ev and ev[0] == 'STATIC':
+                    return Fraction(ev[1])
+                if ev is None and node.id in getattr(self.mod, 'intconsts', {}):
+                    return Fraction(self.mod.intconsts[node.id])
+                return None
             if isinstance(node, ast.UnaryOp) and isinstance(node.op, ast.USub):
                 v = self.const_rational(node.operand)
                 return None if v is None else -v
@@ -633,6 +686,10 @@ class Translator:
             return self.index(v.items[k], idxs[1:])
         if not isinstance(v, Val):
             raise TranslateError('indexing unsupported value')
+        if isinstance(i0, ast.Name) and i0.id not in self.env and i0.id in getattr(self.mod, 'sliceconsts', {}):
+            lo, hi = self.mod.sliceconsts[i0.id]      # module-level NAME = slice(lo, hi)
+            subs = [self.index(v.index(k), idxs[1:]) for k in range(lo, hi)]
+            return self.stack(TupleVal(subs))
         if isinstance(i0, ast.Slice):
             n = v.shape[0]
             lo = 0 if i0.lower is None else self.const_int(i0.lower)
@@ -711,6 +768,49 @@ class Translator:
             kw = {k.arg: k.value for k in e.keywords}
         else:
             kw = {}
+        # array methods .ravel() / .flatten() / .reshape((n,m)) on a translated value (C08)
+        if isinstance(e.func, ast.Attribute) and e.func.attr in ('ravel', 'flatten', 'reshape') and not kw \
+                and not (isinstance(e.func.value, ast.Name) and (e.func.value.id in NP_ALIASES or e.func.value.id in self.modules
+                                                                  or e.func.value.id in self.mod.aliases)):
+            v = self.expr(e.func.value)
+            if isinstance(v, TupleVal):
+                v = self.stack(v)
+            if not isinstance(v, Val):
+                raise TranslateError('method .%s on unsupported value' % e.func.attr)
+            if e.func.attr in ('ravel', 'flatten'):
+                if e.args:
+                    raise TranslateError('.ravel with arguments')
+                return Val(v.kind, (len(v.flat()),), v.flat())
+            sh = e.args[0] if len(e.args) == 1 else ast.Tuple(elts=list(e.args))
+            dims = [self.const_int(x) for x in sh.elts] if isinstance(sh, ast.Tuple) else [self.const_int(sh)]
+            cnt = 1
+            for d in dims:
+                if d is None or d < 0:
+                    raise TranslateError('reshape to non-constant shape')
+                cnt *= d
+            if cnt != len(v.flat()):
+                raise TranslateError('reshape size mismatch')
+            return Val.from_flat(v.kind, tuple(dims), v.flat())
+        # black-box tensor functions declared opaque for this function (opts['opaque']): passed as function parameters
+        full = ((base + '.') if base else '') + (name or '')
+        if full in getattr(self, 'opaque', {}):
+            on, ins, outs = self.opaque[full]
+            if kw or len(e.args) != len(ins):
+                raise TranslateError('opaque %s called with wrong arity' % full)
+            flat = []
+            for ps, a in zip(ins, e.args):
+                flat += self.flat_arg(ps, self.expr(a))
+            okind, oshape = parse_shape(outs)
+            cnt = 1
+            for d in oshape:
+                cnt *= d
+            term = '(%s %s)' % (on, ' '.join(flat))
+            if cnt == 1:
+                return Val.from_flat(okind, oshape, [term])
+            base_ = self.fresh('q')
+            names = ['%s_%d' % (base_, i) for i in range(cnt)]
+            self.pre.append("let '(%s) := %s in" % (', '.join(names), term))
+            return Val.from_flat(okind, oshape, names)
         # numpy-like primitives
         if base in NP_ALIASES or base in ('jax.numpy', 'np.linalg', 'jnp.linalg', 'jax.lax', 'lax', 'jax.numpy.linalg'):
             return self.np_call(base, name, e.args, kw, e)
@@ -722,6 +822,18 @@ class Translator:
             fn = self.env[name]
             if isinstance(fn, tuple) and fn[0] in ('DEF', 'LAMBDA'):
                 return self.apply_closure(fn, [self.expr(a) for a in e.args])
+            if isinstance(fn, tuple) and fn[0] == 'ORACLE':
+                _, on, ni, no = fn
+                vals = [self.expr(a) for a in e.args]
+                if kw or len(vals) != ni or any(not isinstance(v, Val) or v.shape != () or v.kind != 'S' for v in vals):
+                    raise TranslateError('oracle %s must be called with %d scalar arguments' % (name, ni))
+                term = '(%s %s)' % (on, ' '.join(v.data for v in vals))
+                if no == 1:
+                    return scalar(term)
+                base_ = self.fresh('o')
+                names = ['%s_%d' % (base_, i) for i in range(no)]
+                self.pre.append("let '(%s) := %s in" % (', '.join(names), term))
+                return TupleVal([scalar(n) for n in names])
             raise TranslateError('call of non-function %s' % name)
         # kernel in this or another module
         target_mod = None
@@ -750,7 +862,11 @@ class Translator:
         else:
             lines = []
             savedpre = self.pre
+            savedsuf = getattr(self, 'local_suffix', '')
+            self.counter += 1
+            self.local_suffix = '_k%d' % self.counter
             r = self.block(list(node.body), lines, node.name)
+            self.local_suffix = savedsuf
             self.pre = savedpre + lines
         self.env = saved
         return r
@@ -789,6 +905,10 @@ class Translator:
 
     def kernel_call(self, info, argvals):
         args = self.flat_args(info, argvals)
+        for on in getattr(info, 'opaque', []):
+            if on not in [v[0] for v in getattr(self, 'opaque', {}).values()]:
+                raise TranslateError('callee %s needs opaque function %s which the caller does not declare' % (info.name, on))
+        args = list(getattr(info, 'opaque', [])) + args
         term = '(%s %s)' % (info.name, ' '.join(args)) if args else info.name
         n = self.count_ret(info.ret)
         if n == 1:
@@ -866,6 +986,28 @@ class Translator:
             for d in dims:
                 cnt *= d
             return Val.from_flat('S', tuple(dims), ['nzero' if name == 'zeros' else 'nunit'] * cnt)
+        if name in ('det', 'inv') and len(args) == 1 and base in ('np.linalg', 'jnp.linalg', 'jax.numpy.linalg'):
+            # dense 3x3 determinant / inverse, modelled by the cofactor formulas (LAPACK differs only by rounding)
+            v = A(0)
+            if not isinstance(v, Val) or v.shape != (3, 3) or v.kind != 'S':
+                raise TranslateError('linalg.%s only for 3x3' % name)
+            if any(not __import__('re').fullmatch(r'[A-Za-z_][\w\']*', t) for t in v.flat()):
+                ns = names_for(self.fresh('m'), (3, 3))
+                for n_, t in zip(ns, v.flat()):
+                    self.pre.append('let %s := %s in' % (n_, t))
+                v = Val.from_flat('S', (3, 3), ns)
+            a = v.data
+            m = lambda x, y: '(nmul %s %s)' % (x, y)
+            sb = lambda x, y: '(nsub %s %s)' % (x, y)
+            cof = [[sb(m(a[1][1], a[2][2]), m(a[1][2], a[2][1])), sb(m(a[0][2], a[2][1]), m(a[0][1], a[2][2])), sb(m(a[0][1], a[1][2]), m(a[0][2], a[1][1]))],
+                   [sb(m(a[1][2], a[2][0]), m(a[1][0], a[2][2])), sb(m(a[0][0], a[2][2]), m(a[0][2], a[2][0])), sb(m(a[0][2], a[1][0]), m(a[0][0], a[1][2]))],
+                   [sb(m(a[1][0], a[2][1]), m(a[1][1], a[2][0])), sb(m(a[0][1], a[2][0]), m(a[0][0], a[2][1])), sb(m(a[0][0], a[1][1]), m(a[0][1], a[1][0]))]]
+            dterm = '(nadd (nadd %s %s) %s)' % (m(a[0][0], cof[0][0]), m(a[0][1], cof[1][0]), m(a[0][2], cof[2][0]))
+            if name == 'det':
+                return scalar(dterm)
+            dn = self.fresh('d')
+            self.pre.append('let %s := %s in' % (dn, dterm))
+            return Val('S', (3, 3), [['(ndiv %s %s)' % (cof[i][j], dn) for j in range(3)] for i in range(3)])
         if name == 'trace' and len(args) == 1:
             v = A(0)
             return scalar(self.sumterms([v.data[i][i] for i in range(v.shape[0])]))
@@ -943,7 +1085,7 @@ def generate(repo, specs, outdir):
             msg = str(ex).replace('*)', '* )').replace('"', "'")
             text = '(* GENERATED: translation of %s FAILED: %s *)\nFail Fail Definition translation_failed := "%s".\nDefinition broken : True := 0.\n' % (spec['file'], msg, msg)
             results[spec['name']] = (False, str(ex), path)
-        except (OSError, SyntaxError) as ex:
+        except Exception as ex:  # unreadable/unparsable source or an internal translator error: fail closed
             text = '(* GENERATED: cannot read/parse %s: %s *)\nDefinition broken : True := 0.\n' % (spec['file'], str(ex).replace('*)', ''))
             results[spec['name']] = (False, str(ex), path)
         old = None
